@@ -4,6 +4,7 @@
   correspondence harness (arrays compared before/after, read-only inputs), not provable in a pure model.
 -/
 import VerdeModel.Lemmas.Group
+import VerdeModel.Gen.Utils
 namespace Verde.C10
 open Verde
 
@@ -108,6 +109,38 @@ theorem v2w_of_inverse_sums (sums : List Rat) (tol : Rat) :
   simp only [List.getElem_map, Option.getD_some, hjab, if_true]
   congr 1
   rw [one_div, div_inv_eq_mul]
+
+/-- **Bridge.**  The body of `variance_to_weights`' per-component loop as regenerated from /repo's source text on every run
+    (`nan_to_num`, `ones_like`, the mask `var > tol`, the guard `if np.any(mask)`, the masked minimum and the masked
+    assignment, read element-wise) equals the model's `varianceToWeights` for every variance list (NaN = `none`) and tolerance. -/
+theorem gen_v2w_comp_eq_model (var : List (Option Rat)) (tol : Rat) :
+    Gen.varianceToWeightsComp var tol = varianceToWeights var tol := by
+  unfold Gen.varianceToWeightsComp varianceToWeights
+  simp only [List.map_map]
+  have hfilter : (var.map fun o => o.getD 0).filter (fun x => decide (x > tol))
+      = (var.filter (fun x => decide (x.getD 0 > tol))).map (fun x => x.getD 0) := by
+    rw [List.filter_map]; rfl
+  rw [hfilter]
+  apply List.map_congr_left
+  intro x hx
+  simp only [Function.comp]
+  by_cases hany : (var.any fun x => decide (x.getD 0 > tol)) = true
+  · simp only [hany, if_true]
+  · have hx' : ¬ (x.getD 0 > tol) := by
+      intro h
+      apply hany
+      simp only [List.any_eq_true, decide_eq_true_eq]
+      exact ⟨x, hx, h⟩
+    simp only [hany, hx', if_false]
+    simp
+
+/-- The loop/return skeleton: one output per component, each computed by the same rule with the same tolerance. -/
+theorem gen_v2w_components (variance : List (List (Option Rat))) (tol : Rat) :
+    Gen.varianceToWeights variance tol = variance.map (fun var => varianceToWeights var tol) := by
+  unfold Gen.varianceToWeights
+  apply List.map_congr_left
+  intro v _
+  exact gen_v2w_comp_eq_model v tol
 
 /-! Non-vacuity -/
 example : varianceToWeights [some 0, some 2, none, some 4] = [1, 1, 1, 1/2] := by decide +kernel
